@@ -15,6 +15,14 @@
     Errors are not distinguished further than [PErr] (the correspondence compares
     Ok-tree / Err / Panic).
 
+    Variant [Fix] mirrors /repo with patches/0003-0013 applied: the end of the token stream, a string
+    literal, an unterminated token and a third parenthesis after [let] are errors; [skip_expr] reports a
+    closing parenthesis without an opening one; a plain all-digit token is never looked up in the symbol
+    table; [check-sat-assuming] reads a list; [get-unsat-assumptions] is a command; [read_command]
+    counts parentheses outside quoted symbols and string literals only, joins lines without a separator,
+    and returns an error for a command it cannot parse and at the end of the input inside a command.
+    The assertions of the expression builders are unchanged (they remain a finding).
+
     Executable definitions only. *)
 
 From Patronus Require Export Expr SmtLex SmtSer.
@@ -239,6 +247,27 @@ Definition is_decimal (s : string) : bool := is_decimal_go s false false.
 
 Definition literal_expr (w v : N) : expr := BVLiteral w v.
 
+Section V.
+Variable v : variant.
+
+(** patches/0013: a plain numeral, [_] and [as] are never looked up in the symbol table *)
+Definition kw_tok (value : string) : bool :=
+  all_chars is_dec_digit value || String.eqb value "_" || String.eqb value "as".
+
+(** what a plain token that is no literal / [Bool] / [let] becomes *)
+Definition early_other (st : option nst) (value : string) : pres pitem :=
+  let lookup :=
+    match v with
+    | Cur => true
+    | Fix => negb (kw_tok value)
+    end in
+  match st with
+  | Some st' =>
+      if lookup then match nst_get st' value with Some e => POk (IExpr e) | None => POk (ISym value) end
+      else POk (ISym value)
+  | None => POk (ISym value)
+  end.
+
 (** [early_parse_single_token]; [st = None] directly after [let ((] *)
 Definition early_parse (st : option nst) (value : string) : pres pitem :=
   match value with
@@ -258,17 +287,10 @@ Definition early_parse (st : option nst) (value : string) : pres pitem :=
       else if String.eqb value "false" then POk (IExpr (literal_expr 1 0))
       else if String.eqb value "Bool" then POk (IType (TBV 1))
       else if String.eqb value "let" then POk (ILet 0)
-      else
-        match st with
-        | Some st' => match nst_get st' value with Some e => POk (IExpr e) | None => POk (ISym value) end
-        | None => POk (ISym value)
-        end
+      else early_other st value
   | _ =>
       (* fewer than two characters: no literal, no keyword *)
-      match st with
-      | Some st' => match nst_get st' value with Some e => POk (IExpr e) | None => POk (ISym value) end
-      | None => POk (ISym value)
-      end
+      early_other st value
   end.
 
 (** [expr(st, item)] *)
@@ -445,8 +467,9 @@ Definition step (tok : ltok) (stack : list pitem) (st : nst) (orphan : bool)
       if orphan then PErr
       else match stack with
            | ILet p :: below =>
-               (* debug assertion: parens < 2 *)
-               if p <? 2 then POk (ILet (p + 1) :: below, st, orphan) else PPanic
+               (* Cur: debug assertion parens < 2;  Fix (patches/0008): an error *)
+               if p <? 2 then POk (ILet (p + 1) :: below, st, orphan)
+               else match v with Cur => PPanic | Fix => PErr end
            | _ => POk (IOpen false :: stack, st, orphan)
            end
   | TkClose =>
@@ -470,16 +493,17 @@ Definition step (tok : ltok) (stack : list pitem) (st : nst) (orphan : bool)
   | TkEscaped v =>
       if orphan then PErr
       else pbind (lookup_sym st v) (fun e => POk (IExpr e :: stack, st, orphan))
-  | TkStringLit _ => PPanic
+  | TkStringLit _ => match v with Cur => PPanic | Fix => PErr end     (* patches/0004 *)
   | TkComment => POk (stack, st, orphan)
   | TkLexPanic => PPanic
+  | TkUnterminated => PErr                                            (* patches/0005 *)
   end.
 
 (** [parse_expr_or_type]: the result and the tokens not yet consumed *)
 Fixpoint run (toks : list ltok) (stack : list pitem) (st : nst) (orphan : bool)
   : pres (eot * nst * list ltok) :=
   match toks with
-  | [] => PPanic                                   (* todo!("error message!") *)
+  | [] => match v with Cur => PPanic | Fix => PErr end   (* todo!("error message!") / patches/0004 *)
   | tok :: rest =>
       match step tok stack st orphan with
       | POk (stack', st', orphan') =>
@@ -518,7 +542,7 @@ Definition parse_expr_toks (top : symtab) (toks : list ltok) : pres expr :=
     pbind (next_no_comment rest) (fun n =>
       match fst n with None => POk e | Some _ => PErr end)).
 
-Definition parse_expr_str (top : symtab) (s : string) : pres expr := parse_expr_toks top (lex_impl s).
+Definition parse_expr_str (top : symtab) (s : string) : pres expr := parse_expr_toks top (lex_impl v s).
 
 (** ** responses *)
 
@@ -534,9 +558,10 @@ Fixpoint skip_expr (toks : list ltok) (open_count : N) : pres (list ltok) :=
   match toks with
   | [] => PErr
   | TkLexPanic :: _ => PPanic
+  | TkUnterminated :: _ => PErr
   | TkOpen :: r => skip_expr r (open_count + 1)
   | TkClose :: r =>
-      if open_count =? 0 then PPanic
+      if open_count =? 0 then match v with Cur => PPanic | Fix => PErr end    (* patches/0007 *)
       else if open_count =? 1 then POk r else skip_expr r (open_count - 1)
   | TkComment :: r => skip_expr r open_count
   | _ :: r => if open_count =? 0 then POk r else skip_expr r open_count
@@ -553,7 +578,7 @@ Definition parse_get_value_response_toks (toks : list ltok) : pres expr :=
     pbind (skip_close t5) (fun _ => POk e)))))).
 
 Definition parse_get_value_response_str (s : string) : pres expr :=
-  parse_get_value_response_toks (lex_impl s).
+  parse_get_value_response_toks (lex_impl v s).
 
 (** [parse_expr_list] (fuelled by the number of tokens: every round consumes at least one) *)
 Fixpoint parse_expr_list_go (fuel : nat) (toks : list ltok) (st : nst) (acc : list expr) : pres (list expr) :=
@@ -570,11 +595,26 @@ Fixpoint parse_expr_list_go (fuel : nat) (toks : list ltok) (st : nst) (acc : li
         end)
   end.
 
+(** the same, also returning the tokens after the closing parenthesis *)
+Fixpoint parse_expr_list_rest (fuel : nat) (toks : list ltok) (st : nst) (acc : list expr) : pres (list expr * list ltok) :=
+  match fuel with
+  | O => PErr
+  | S fuel' =>
+      pbind (next_no_comment toks) (fun n =>
+        match n with
+        | (None, _) => PErr
+        | (Some TkClose, r) => POk (rev acc, r)
+        | (Some _, _) =>
+            pbind (parse_expr_internal toks st) (fun r =>
+              let '(e, st', rest) := r in parse_expr_list_rest fuel' rest st' (e :: acc))
+        end)
+  end.
+
 Definition parse_unsat_assumptions_toks (top : symtab) (toks : list ltok) : pres (list expr) :=
   pbind (skip_open toks) (fun t1 => parse_expr_list_go (S (length t1)) t1 (nst_new top) []).
 
 Definition parse_unsat_assumptions_str (top : symtab) (s : string) : pres (list expr) :=
-  parse_unsat_assumptions_toks top (lex_impl s).
+  parse_unsat_assumptions_toks top (lex_impl v s).
 
 (** ** commands *)
 
@@ -669,7 +709,15 @@ Definition parse_command_body (top : symtab) (name : string) (toks : list ltok) 
         if ty_eqb (type_of v) t then pbind (mk_symbol (fst nr) t) (fun s => POk (CDefineConst s v, rest))
         else PPanic)))))
   else if String.eqb name "check-sat-assuming" then
-    pbind (parse_expr_internal toks st) (fun r => let '(e, _, rest) := r in POk (CCheckSatAssuming [e], rest))
+    match v with
+    | Cur => pbind (parse_expr_internal toks st) (fun r => let '(e, _, rest) := r in POk (CCheckSatAssuming [e], rest))
+    | Fix =>
+        (* patches/0011: [parse_expr_list]; the tokens after the list are found again by skipping it *)
+        pbind (skip_open toks) (fun t1 =>
+        pbind (parse_expr_list_rest (S (length t1)) t1 st []) (fun er => POk (CCheckSatAssuming (fst er), snd er)))
+    end
+  else if String.eqb name "get-unsat-assumptions" then
+    match v with Cur => PErr | Fix => POk (CGetUnsatAssumptions, toks) end          (* patches/0012 *)
   else if String.eqb name "push" || String.eqb name "pop" then
     pbind (value_token toks) (fun nr =>
       match parse_uint 64 (fst nr) with
@@ -691,18 +739,33 @@ Definition parse_command_toks (top : symtab) (toks : list ltok) : pres smt_cmd :
     | _ => PErr
     end)).
 
-Definition parse_command_str (top : symtab) (s : string) : pres smt_cmd := parse_command_toks top (lex_impl s).
+Definition parse_command_str (top : symtab) (s : string) : pres smt_cmd := parse_command_toks top (lex_impl v s).
 
 (** ** [read_command] on a list of lines (each line as [read_line] delivers it) *)
 
-Fixpoint count_parens (s : string) (acc : Z) : Z :=
+Fixpoint count_parens_cur (s : string) (acc : Z) : Z :=
   match s with
   | EmptyString => acc
   | String c r =>
-      if Ascii.eqb c c_open then count_parens r (acc + 1)%Z
-      else if Ascii.eqb c c_close then count_parens r (acc - 1)%Z
-      else count_parens r acc
+      if Ascii.eqb c c_open then count_parens_cur r (acc + 1)%Z
+      else if Ascii.eqb c c_close then count_parens_cur r (acc - 1)%Z
+      else count_parens_cur r acc
   end.
+
+(** patches/0003: parentheses inside string literals and quoted symbols do not count *)
+Fixpoint count_parens_fix (s : string) (in_string in_quoted : bool) (acc : Z) : Z :=
+  match s with
+  | EmptyString => acc
+  | String c r =>
+      if Ascii.eqb c c_dquote && negb in_quoted then count_parens_fix r (negb in_string) in_quoted acc
+      else if Ascii.eqb c c_bar && negb in_string then count_parens_fix r in_string (negb in_quoted) acc
+      else if Ascii.eqb c c_open && negb in_string && negb in_quoted then count_parens_fix r in_string in_quoted (acc + 1)%Z
+      else if Ascii.eqb c c_close && negb in_string && negb in_quoted then count_parens_fix r in_string in_quoted (acc - 1)%Z
+      else count_parens_fix r in_string in_quoted acc
+  end.
+
+Definition count_parens (s : string) : Z :=
+  match v with Cur => count_parens_cur s 0 | Fix => count_parens_fix s false false 0 end.
 
 (** [char::is_ascii_whitespace]: space, tab, line feed, form feed, carriage return *)
 Definition ascii_ws (c : ascii) : bool :=
@@ -721,8 +784,9 @@ Definition is_blank (s : string) : bool := str_forall trim_ws s.
 Inductive rc_result : Type :=
 | RcEof                                             (* Ok(None) *)
 | RcCmd (c : smt_cmd) (top : symtab) (rest : list string)
-| RcPanic                                           (* expect("failed to parse command") or a panic inside *)
-| RcHang.                                           (* the loop that waits for balanced parentheses at end of input *)
+| RcErr                                             (* Err(io::Error): Fix only *)
+| RcPanic                                           (* Cur: expect("failed to parse command"); both: a panic inside parse_command *)
+| RcHang.                                           (* Cur: the loop that waits for balanced parentheses at end of input *)
 
 (** skip comment-only and blank lines *)
 Fixpoint rc_skip (lines : list string) : option (string * list string) :=
@@ -733,10 +797,12 @@ Fixpoint rc_skip (lines : list string) : option (string * list string) :=
 
 (** append lines while there are more opening than closing parentheses *)
 Fixpoint rc_balance (cmd : string) (lines : list string) : option (string * list string) :=
-  if (count_parens cmd 0 <=? 0)%Z then Some (cmd, lines)
+  if (count_parens cmd <=? 0)%Z then Some (cmd, lines)
   else match lines with
        | [] => None
-       | l :: r => rc_balance (String.append cmd (String " "%char l)) r
+       | l :: r =>
+           (* Cur pushes a space before reading the next line; patches/0010 removes it *)
+           rc_balance (String.append cmd (match v with Cur => String " "%char l | Fix => l end)) r
        end.
 
 Definition symtab_add (top : symtab) (c : smt_cmd) : symtab :=
@@ -751,11 +817,14 @@ Definition read_command (top : symtab) (lines : list string) : rc_result :=
   | None => RcEof
   | Some (l, rest) =>
       match rc_balance l rest with
-      | None => RcHang
+      | None => match v with Cur => RcHang | Fix => RcErr end          (* patches/0009 *)
       | Some (cmd, rest') =>
           match parse_command_str top cmd with
           | POk c => RcCmd c (symtab_add top c) rest'
-          | PErr | PPanic => RcPanic
+          | PErr => match v with Cur => RcPanic | Fix => RcErr end     (* patches/0009 *)
+          | PPanic => RcPanic
           end
       end
   end.
+
+End V.
